@@ -376,7 +376,7 @@ def run(p: Program, rep: Report, tier: str) -> None:
             rep.ok("R17.6", f"QueryParams parses with {ast.unparse(c)[:70]}")
     if len(sigs) > 1:
         rep.violation("R17.6", construct(qinit, text="str and bytes parsed with different settings"), where(qinit), f"QueryParams parses its input forms with different parser settings: {sorted(sigs)}")
-    rep.require_instances("R17.6", 2)
+    rep.require_instances("R17.6", 1)  # one parse call for both input forms (the bytes only made text first) is one signature
 
     # ---------------------------------------------------------------- R17.7 str(q) encodes with the codec the parser unquotes with
     # "a query mapping parsed from its own string form equals itself": urlencode percent-escapes the UTF-8 bytes of the text by
